@@ -312,10 +312,13 @@ func PreExecBlock(client queue.Client, prevStateRoot []byte, block *types.Block,
 		unverifiedTxs := block.Txs
 		//区块中交易在mempool中已有存在情况，重新构造需要验签的交易列表
 		if replyData.ExistCount > 0 {
-			unverifiedTxs = make([]*types.Transaction, 0, len(block.Txs)-int(replyData.ExistCount))
-			for index, exist := range replyData.ExistFlags {
+			//交易哈希不包含签名, mempool中存在相同哈希的交易并不说明区块中的这笔交易已验过签,
+			//只有与mempool中的交易逐字节一致(含签名)才可以跳过验签
+			verified := sameAsMempoolTxs(client, block.Txs, replyData.ExistFlags)
+			unverifiedTxs = make([]*types.Transaction, 0, len(block.Txs))
+			for index := range block.Txs {
 				//只需要对mempool中不存在的交易验签
-				if !exist {
+				if !verified[index] {
 					unverifiedTxs = append(unverifiedTxs, block.Txs[index])
 				}
 			}
@@ -457,6 +460,43 @@ func PreExecBlock(client queue.Client, prevStateRoot []byte, block *types.Block,
 	}
 	detail.PrevStatusHash = prevStateRoot
 	return &detail, deltxs, nil
+}
+
+// sameAsMempoolTxs 对mempool中存在相同哈希的交易, 取出mempool中的交易与区块中的交易比较,
+// 返回区块中每笔交易是否与mempool中已验签的交易完全一致. 任何错误都按不一致处理(需要验签)
+func sameAsMempoolTxs(client queue.Client, txs []*types.Transaction, existFlags []bool) []bool {
+	same := make([]bool, len(txs))
+	req := &types.ReqTxHashList{}
+	var indexes []int
+	for index, exist := range existFlags {
+		if exist && index < len(txs) {
+			req.Hashes = append(req.Hashes, types.Bytes2Str(txs[index].Hash()))
+			indexes = append(indexes, index)
+		}
+	}
+	if len(indexes) == 0 {
+		return same
+	}
+	msg := client.NewMessage("mempool", types.EventTxListByHash, req)
+	err := client.Send(msg, true)
+	if err != nil {
+		ulog.Error("PreExecBlock", "send mempool tx list by hash err", err)
+		return same
+	}
+	reply, err := client.Wait(msg)
+	if err != nil {
+		ulog.Error("PreExecBlock", "wait mempool tx list by hash reply err", err)
+		return same
+	}
+	memTxs, ok := reply.GetData().(*types.ReplyTxList)
+	if !ok || len(memTxs.GetTxs()) != len(indexes) {
+		return same
+	}
+	for i, index := range indexes {
+		memTx := memTxs.GetTxs()[i]
+		same[index] = memTx != nil && bytes.Equal(types.Encode(memTx), types.Encode(txs[index]))
+	}
+	return same
 }
 
 // ExecBlockUpgrade : just exec block
